@@ -1237,6 +1237,18 @@ class SelfDestruct(BuiltinFunctionT):
     @process_inputs
     def build_IR(self, expr, args, kwargs, context):
         context.check_is_not_constant("selfdestruct", expr)
+        func_t = context.func_t
+        if func_t is not None and func_t.nonreentrant:
+            # SELFDESTRUCT halts without passing the function's exit sequence; since
+            # cancun the contract survives, so a lock left set would block every
+            # protected function for the rest of the transaction. release it first
+            # (after the beneficiary has been evaluated).
+            from vyper.codegen.function_definitions.common import get_nonreentrant_lock
+
+            _, nonreentrant_post = get_nonreentrant_lock(func_t)
+            destroy = ensure_eval_once("selfdestruct", ["selfdestruct", "_sd_to"])
+            body = ["seq"] + nonreentrant_post + [destroy]
+            return IRnode.from_list(["with", "_sd_to", args[0], body])
         return IRnode.from_list(ensure_eval_once("selfdestruct", ["selfdestruct", args[0]]))
 
 
